@@ -202,9 +202,9 @@ def parse_axioms(out):
     """`'Foo.bar' depends on axioms: [propext, Quot.sound]` / `does not depend on any axioms`"""
     res = {}
     text = out.replace('\n ', ' ').replace('\n  ', ' ')
-    for m in re.finditer(r"'([^']+)' depends on axioms: \[([^\]]*)\]", text, re.S):
+    for m in re.finditer(r"'(\S+)' depends on axioms: \[([^\]]*)\]", text, re.S):
         res[m.group(1)] = [a.strip() for a in m.group(2).replace('\n', ' ').split(',') if a.strip()]
-    for m in re.finditer(r"'([^']+)' does not depend on any axioms", text):
+    for m in re.finditer(r"'(\S+)' does not depend on any axioms", text):
         res[m.group(1)] = []
     return res
 
